@@ -62,19 +62,7 @@ func init() {
 			return tuple{"vm", iface{}}
 		},
 		"crypto/rand.Read": func(fr *frame, args []value) value {
-			b := args[0].([]value)
-			for i := range b {
-				b[i] = byte(i*37 + 11)
-			}
-			return tuple{len(b), iface{}}
-		},
-		"io.ReadFull": func(fr *frame, args []value) value {
-			// only used with rand.Reader in go-mail
-			b := args[1].([]value)
-			for i := range b {
-				b[i] = byte(i*37 + 11)
-			}
-			return tuple{len(b), iface{}}
+			return randFill(args[0].([]value))
 		},
 		"mime.TypeByExtension": func(fr *frame, args []value) value {
 			switch args[0].(string) {
